@@ -893,9 +893,71 @@ func genOrderSet(r *rand.Rand, p pool) setCase {
 	return setCase{es: es, order: order, shape: fmt.Sprintf("orderset o=%s %s", order, strings.Join(sh, ",")), nontri: true}
 }
 
+// genDupSet builds a set that is NOT duplicate-free in the way git's order hides best: the same name as a
+// non-directory and as a directory (they sort as "name" and "name/"), optionally a third entry of that name,
+// together with 1-3 siblings "name"+c with c around '/' (0x01, ' ', '-', '.', '0', ...): those with c < '/'
+// sort BETWEEN the two duplicates, so the duplicates are not adjacent in correctly sorted order.
+func genDupSet(r *rand.Rand, p pool) setCase {
+	base := []string{"a", "x", "lib", "\xc3\xa9", "A", "a.b", "f1"}[r.Intn(7)]
+	nonDir := []struct {
+		mode uint32
+		id   []byte
+		tag  string
+	}{{0o100644, p.blob, "file"}, {0o100755, p.blob, "exec"}, {0o120000, p.blob, "link"}, {0o160000, p.other, "gitlink"}}
+	var es []ent
+	var sh []string
+	a := nonDir[r.Intn(len(nonDir))]
+	es = append(es, ent{a.mode, base, a.id})
+	sh = append(sh, a.tag)
+	switch r.Intn(6) {
+	case 0: // two non-directories of the same name (adjacent in git order)
+		b := nonDir[r.Intn(len(nonDir))]
+		es = append(es, ent{b.mode, base, b.id})
+		sh = append(sh, b.tag)
+	case 1: // three-way duplicate: non-dir, non-dir, dir
+		b := nonDir[r.Intn(len(nonDir))]
+		es = append(es, ent{b.mode, base, b.id}, ent{0o40000, base, p.tree})
+		sh = append(sh, b.tag, "dir")
+	case 2: // three-way duplicate: non-dir, dir, dir
+		es = append(es, ent{0o40000, base, p.tree}, ent{0o40000, base, p.tree})
+		sh = append(sh, "dir", "dir")
+	default: // the classic: non-dir + dir
+		es = append(es, ent{0o40000, base, p.tree})
+		sh = append(sh, "dir")
+	}
+	suffixes := []string{"\x01", " ", "!", "+", ",", "-", "-x", ".", ".b", "..", "0", "00", "a", "_", "/"}
+	used := map[string]bool{}
+	for k := 1 + r.Intn(3); k > 0; k-- {
+		sfx := suffixes[r.Intn(len(suffixes))]
+		if r.Intn(3) == 0 {
+			sfx = suffixes[1+r.Intn(9)] // bias to the printable ones below '/': they separate the pair and are valid names
+		}
+		if used[sfx] || (sfx == "/" && r.Intn(4) != 0) {
+			continue
+		}
+		used[sfx] = true
+		if r.Intn(4) == 0 {
+			es = append(es, ent{0o40000, base + sfx, p.tree})
+			sh = append(sh, "d:"+sfx)
+		} else {
+			es = append(es, ent{0o100644, base + sfx, p.blob})
+			sh = append(sh, "f:"+sfx)
+		}
+	}
+	if r.Intn(3) == 0 { // unrelated neighbours
+		es = append(es, ent{0o100644, "0first", p.blob}, ent{0o100644, "zlast", p.blob})
+	}
+	sort.SliceStable(es, func(i, j int) bool { return sortKey(es[i]) < sortKey(es[j]) })
+	sort.Strings(sh)
+	return setCase{es: es, order: "dup", shape: "dupset " + strings.Join(sh, ","), nontri: true}
+}
+
 func genSet(r *rand.Rand, p pool, idLen int) setCase {
-	if r.Intn(8) == 0 {
+	switch r.Intn(16) {
+	case 0, 1:
 		return genOrderSet(r, p)
+	case 2, 3:
+		return genDupSet(r, p)
 	}
 	n := 1 + r.Intn(6)
 	switch r.Intn(30) {
